@@ -33,6 +33,12 @@ claimed = {
  "C14": ("model_checking", "explicit-state BFS with cycle/turn monitor and life-cycle automata as history variables, events taken after every callback",
    "BFS for 0..4 peripherals in Vec and fixed[4] storage, global control once or every visit, high-priority-only visits, with lost/rejected replies, power cycles, long token absences and user calls; slot order, one turn per cycle, cycle_completed accounting and the event life-cycle vs is_live()/is_running() are checked at every callback; hangs by watchdog.",
    "Trusted: reference slave; sparse storage slots cannot be produced through the public API and are not generated.", "6 C14"),
+ "C05": ("model_checking", "explicit-state BFS of a real FdlActiveStation (and of a real DpMaster) against an adversarial telegram alphabet, with a formatting logger, debug assertions and overflow checks on; hang watchdog",
+   "Every symbol of an adversarial alphabet (~75: tokens between own/neighbour/stranger/invalid addresses, status requests and replies, SC, data requests/replies, garbage, truncated frames, collisions, waits, set_offline/set_online) is applied in every reachable state of the real station up to the depth bound, for several (TS,HSA,gap) configurations, base situations and application sets ((), LiveList, DpScanner, poll_multi with 2 and 0 apps); the DP master is explored in direct drive for 0..3 peripherals. Oracle: no panic (message+location), no hang (20 s watchdog), with a logger that formats every record.",
+   "Depth-bounded (quick 3 / thorough 6 for the FDL worlds); DpMaster under a real FDL station is covered by C15; PHY-level effects beyond BusSim are not modelled.", "6 C05"),
+ "C11": ("model_checking", "explicit-state BFS of a real FdlActiveStation against an adversarial peer with a token hand-over monitor automaton",
+   "BFS from four base situations (listening, two- and three-station ring, alone with the token) for TS in {3,0,HSA-1} and two poll grids over an alphabet of tokens between predecessor/successor/stranger/own/invalid addresses, status traffic, SC, a garbage byte and three silence lengths; the monitor justifies every initiated transmission (token from the registered predecessor, second offer, own claim), and checks the pass supervision (repeat only after a silent slot, at most two repeats, then removal; none after something was heard).",
+   "Monitor leniencies documented in DESIGN 6 C11 (burst subtleties, undecodable bytes after a pass, claim timing belongs to C01).", "6 C11"),
 }
 not_applicable_reasons = {}
 
